@@ -83,3 +83,27 @@ package dnssec
 //@   loop 2 invariant len(encoded) == 0 ==> dcount(len(key.PublicKey) - n) + decoded == matLen(key.PublicKey)
 //@   loop 2 invariant len(encoded) > 0 ==> decoded == 192 && n == 256
 //@   assert at return#6: len(key.PublicKey) > 0 ==> int(result) == (ktHdr(key) + wsum(key.PublicKey, matLen(key.PublicKey)) + ((ktHdr(key) + wsum(key.PublicKey, matLen(key.PublicKey))) / 65536) % 65536) % 65536
+//@
+//@ # ---- C01: a signer is accepted only if the query name lies inside the signer's zone
+//@ func ValidateSigner
+//@   modifies nothing
+//@   ensures result == nil ==> signer != "" && inZone(lower(fqdn(qname)), lower(fqdn(signer)))
+//@
+//@ # RRSIG validation pass (abstracting tier): only DNAMEs owned inside the signer zone can excuse an unsigned
+//@ # synthesised CNAME; only records owned inside the signer zone enter the RRsets to be verified; a signature is
+//@ # indexed only if its owner is inside the signer zone; every zone test is against the signer zone derived from the
+//@ # caller-supplied signer
+//@ func verifyRRSIGWithWork
+//@   abstract
+//@   nosafety all pre
+//@   assert at call internal/dnsutil.NameInZone#1: sameslice(arg1, signerZone)
+//@   assert at append#1: lastret("internal/dnsutil.NameInZone")
+//@   assert at call internal/dnsutil.NameInZone#2: sameslice(arg1, signerZone)
+//@   assert at mapupdate#1: lastret("internal/dnsutil.NameInZone")
+//@   assert at call middleware/resolver/dnssec.verifyOneSigWithWork#1: arg0 == keys && arg3 == work
+//@
+//@ func verifyRRSIGWithWork$1
+//@   abstract
+//@   nosafety all pre
+//@   assert at call internal/dnsutil.NameInZone#1: sameslice(arg1, signerZone)
+//@   assert at mapupdate#1: lastret("internal/dnsutil.NameInZone")
